@@ -262,6 +262,16 @@ pub fn finish(ctx: &Ctx, mut st: Stats, spec: Spec, known_replayed: &[(Known, bo
         let dir = ctx.verif_dir.join("replays");
         let _ = std::fs::create_dir_all(&dir);
         for (i, v) in unlisted.iter().enumerate() {
+            if ctx.replaying {
+                // re-running a recorded case: point at the file being replayed, do not overwrite it
+                let src = std::env::var("VERIF_REPLAY_SOURCE").unwrap_or_else(|_| "<replayed case>".to_string());
+                println!("VIOLATION property={} replay={}", ctx.prop, src);
+                println!("  monitor={} signature={}", v.monitor, v.signature);
+                for l in v.message.lines().take(12) {
+                    println!("  {}", l);
+                }
+                continue;
+            }
             let path = dir.join(format!("{}-{}-seed{}-{}.json", ctx.prop, ctx.tier.name(), ctx.seed, i));
             let body = json!({
                 "property": ctx.prop,
